@@ -19,6 +19,8 @@ pub struct BatchResult {
     pub dropped: Vec<(usize, Vec<String>)>,
     /// (case index, first compiler error located inside the emitted text)
     pub emitted_compile_errors: Vec<(usize, String)>,
+    /// (case index, assertion text "<Cxx> ...", compiler message)
+    pub type_assertions_failed: Vec<(usize, String, String)>,
     pub inconclusive: Vec<String>,
     pub steps: usize,
     /// case indices that had at least one executed step of the property
@@ -57,6 +59,7 @@ pub fn run_batch(cases: &[&Built], props: &[&'static str], seed: u64, runtimes: 
         stats: BTreeMap::new(),
         dropped: vec![],
         emitted_compile_errors: vec![],
+        type_assertions_failed: vec![],
         inconclusive: vec![],
         steps: 0,
         executed_cases: BTreeSet::new(),
@@ -102,6 +105,14 @@ pub fn run_batch(cases: &[&Built], props: &[&'static str], seed: u64, runtimes: 
                         let ln: usize = parts.next().and_then(|x| x.trim().parse().ok()).unwrap_or(usize::MAX);
                         if emitted_lines.get(&file).map(|n| ln <= *n).unwrap_or(false) && !res.emitted_compile_errors.iter().any(|(c, _)| *c == ci) {
                             res.emitted_compile_errors.push((ci, crate::verdict::one_line(line, 300)));
+                        }
+                        // a type assertion written by the probe builder does not hold
+                        let src_line = std::fs::read_to_string(line.split(':').next().unwrap_or("")).ok().and_then(|t| t.lines().nth(ln.saturating_sub(1)).map(|l| l.to_string())).unwrap_or_default();
+                        if let Some(i) = src_line.find("TYPE-ASSERT: ") {
+                            let what = src_line[i + 13..].trim_end_matches("*/").trim().to_string();
+                            if !res.type_assertions_failed.iter().any(|(c, w, _)| *c == ci && *w == what) {
+                                res.type_assertions_failed.push((ci, what, crate::verdict::one_line(line, 300)));
+                            }
                         }
                     }
                 }
@@ -255,7 +266,12 @@ pub fn extra_cases(prop: &str, seed: u64, first_id: usize, tier: Tier) -> Vec<(S
         "C07" => crate::gen_special::c07_cases(seed, first_id, tier.pick(80, 800)),
         "C06" => crate::gen_special::c06_shapes(first_id),
         "C04" => crate::gen_special::c04_tables(seed, first_id, tier.pick(60, 600)),
-        "C15" => crate::gen_special::c15_cases(seed, first_id, tier.pick(80, 800)),
+        "C15" => {
+            let mut v = crate::gen_special::c15_cases(seed, first_id, tier.pick(80, 800));
+            let sp: Vec<_> = crate::gen_special::shadow_programs(first_id + v.len()).into_iter().filter(|c| c.2 == 8).collect();
+            v.extend(sp);
+            v
+        }
         "C05" => crate::gen_special::c05_cases(seed, first_id, tier.pick(80, 800)),
         _ => vec![],
     }
@@ -340,6 +356,12 @@ pub fn run(ctx: &mut Ctx, prop: &'static str) {
         for (ci, err) in &r.emitted_compile_errors {
             let b = chunk[*ci];
             ctx.violation(&format!("{prop}/emitted-code-does-not-compile"), &format!("the emitted module of an accepted input does not compile, so its wrappers cannot be invoked: {err}"), case_json(&b.mods, b.ptrw));
+        }
+        for (ci, what, err) in &r.type_assertions_failed {
+            let b = chunk[*ci];
+            if what.starts_with(prop) {
+                ctx.violation(&format!("{prop}/type-as-compiled"), &format!("{what}: {err}"), case_json(&b.mods, b.ptrw));
+            }
         }
         for (ci, errs) in &r.dropped {
             ctx.count("cases_dropped_compile_error", 1);
